@@ -208,6 +208,27 @@ def check_case(root, cb, plats, subprocess_too=False):
         s2 = cli.parse_summary(r["out"])
         if r["rc"] != 0 or {k: v for k, v, _, _ in s2["rows"] if v} != {k: v for k, v in exp_sm.items() if v}:
             bad.append(("subprocess-summary", _sm(exp_sm), r["out"][-400:] + r["err"][-200:]))
+        # the other two front ends as real processes (python -m ...): same rows / same export as in-process
+        r = cli.run_subprocess("tree", [an], root)
+        try:
+            nodes2 = [n for n in cli.tree_paths(cli.parse_tree(r["out"])[1]) if "raw" not in n]
+        except Exception:  # noqa
+            nodes2 = None
+        if r["rc"] != 0 or nodes2 is None or [_row(n) for n in nodes2] != [_row(n) for n in outs["plain"][1]]:
+            bad.append(("subprocess-tree", [_row(n) for n in outs["plain"][1]][:6], (r["rc"], r["out"][-300:] + r["err"][-200:])))
+        if plats:
+            covp = os.path.join(root, "cov-sub.json")
+            r = cli.run_subprocess("cov", ["compute", "-S", root, f"{plats[0]}.json", "-o", covp], root)
+            r2 = cli.run("cov", ["compute", "-S", root, f"{plats[0]}.json", "-o", covp + ".in"], root)
+            try:
+                same = json.load(open(covp)) == json.load(open(covp + ".in"))
+            except Exception:  # noqa
+                same = False
+            for p_ in (covp, covp + ".in"):
+                if os.path.exists(p_):
+                    os.unlink(p_)
+            if r["rc"] != 0 or not same:
+                bad.append(("subprocess-cov", "the export of the in-process run", (r["rc"], r["err"][-300:])))
     return bad
 
 
